@@ -22,6 +22,22 @@ HOSTILE = ["\"", "\\", "\n", "\r", " ", " ", "';alert(1);//", "\\\"", "\\n",
 SCRIPTY = ["</script>", "</SCRIPT >", "<!--", "-->", "</script", "<script>", "<!-- </script> -->", "a</script>b<!--c"]
 
 
+def sweep_project():
+    """Deterministic coverage of string contents: every C0/C1 control and other special character alone, between letters,
+    and all together (same table as C11), in two locales and two units."""
+    from .c11 import EVERY_SPECIAL
+    specials = [c for c in EVERY_SPECIAL if c not in "<>"]
+    data = {}
+    for ns in ("common", "home"):
+        for l in ("en", "fr"):
+            tree = [["k0", {"k": "raw", "v": "".join(specials if l == "en" else reversed(specials))}]]
+            for i, ch in enumerate(specials):
+                if (i % 2 == 0) == (ns == "common"):
+                    tree.append(["k%d" % (i + 1), {"k": "raw", "v": ("a" + ch + "b") if l == "en" else ch}])
+            data[(ns, l)] = tree
+    return {"cfg": {"default": "en", "locales": ["en", "fr"], "namespaces": ["common", "home"], "inherits": {}, "locales_dir": None}, "data": data}
+
+
 def build_project(rng):
     nloc = rng.randint(2, 4)
     locales = rng.sample(["en", "fr", "de", "ja", "pt-BR", "ar"], nloc)
@@ -51,7 +67,7 @@ def run(tier, seed, replay=None):
     ncrates = 3 if tier == "quick" else 40
     crates, projs = [], []
     for ci in range(ncrates):
-        p = build_project(rng)
+        p = build_project(rng) if ci else sweep_project()
         projs.append(p)
     # string tables from the real parser (what each unit holds, in order)
     dirs, _ = workload.materialise(projs, "c17", seed=seed)
